@@ -59,4 +59,7 @@ def stages(tier, rng, only=None):
                                                              flags=(0,)), _nt))
         out.append(ac.stage("grid4x2", PID, lambda: ac.cases(grids.datasets(4, 2), ["BioConsert", "BioCo"], SCHEMES,
                                                              flags=(0,)), _nt))
+    # a thousand elements and more (Trace_Wide): rankings that agree on their first and last elements
+    out.append(ac.wide_stage("wide_1000", PID, lambda: ac.wide_cases(rng, 8 if tier == "quick" else 60, ["BioConsert"],
+                                                                      flags=(1, 0), complete_only=True)))
     return [s for s in out if not only or s.name == only]
